@@ -64,18 +64,18 @@ theorem two_addFace_run {fn : Fn R} {c c2 : Cell R} {o : Bool} {p q r s t u v w 
                     | (c, f5) => pure (c, f3, f5) : Except Err (Cell R × Nat × Nat)) = .ok (c2, f3, f5))
     (hf : FaceFreeOk c) :
     ∃ c1 u3 u5, AddRes c c1 f3 u3 ∧ AddRes c1 c2 f5 u5 ∧
-      ((u3 = (p, q, r) ∧ u5 = (s, t, u)) ∨ (u3 = (v, w, x) ∧ u5 = (y, z, a'))) := by
+      ((u3 = (p, q, r) ∧ u5 = (s, t, u)) ∨ (u3 = (v, w, x) ∧ u5 = (y, z, a'))) ∧ (FreeFull c → FreeFull c2) := by
   split at h
   · obtain ⟨⟨c1, g3⟩, h1, h⟩ := bind_ok h
     obtain ⟨⟨c2', g5⟩, h2, h⟩ := bind_ok h
     cases h
     have A1 := addFace_spec h1 hf
-    exact ⟨c1, _, _, A1, addFace_spec h2 A1.ffo, Or.inl ⟨rfl, rfl⟩⟩
+    exact ⟨c1, _, _, A1, addFace_spec h2 A1.ffo, Or.inl ⟨rfl, rfl⟩, fun hF => addFace_full h2 (addFace_full h1 hF)⟩
   · obtain ⟨⟨c1, g3⟩, h1, h⟩ := bind_ok h
     obtain ⟨⟨c2', g5⟩, h2, h⟩ := bind_ok h
     cases h
     have A1 := addFace_spec h1 hf
-    exact ⟨c1, _, _, A1, addFace_spec h2 A1.ffo, Or.inr ⟨rfl, rfl⟩⟩
+    exact ⟨c1, _, _, A1, addFace_spec h2 A1.ffo, Or.inr ⟨rfl, rfl⟩, fun hF => addFace_full h2 (addFace_full h1 hF)⟩
 
 theorem isTri_mk {p q r : Nat} (h1 : p ≠ q) (h2 : p ≠ r) (h3 : q ≠ r) : IsTri (p, q, r) p q r :=
   ⟨h1, h2, h3, by simp [hasNode_iff], by simp [hasNode_iff], by simp [hasNode_iff]⟩
@@ -89,7 +89,7 @@ theorem addNode_store_nodes {c : Cell R} {ns : Array (Node R)} {p m : V3 R} {c1 
     (hsz : ns.size = c.nodes.size) (hu : ∀ j, usedA ns j = usedA c.nodes j) :
     (∀ j, usedN c1 j = (decide (j = newSlot c) || usedN c j)) ∧ c1.freeNodes = c.freeNodes.tail ∧
       (∀ j, j < c.nodes.size → j < c1.nodes.size) ∧ (∀ j, j < c1.nodes.size → j < c.nodes.size ∨ j = newSlot c) ∧
-      c1.edges = c.edges := by
+      c1.edges = c.edges ∧ c1.nodes.size = sizeAfterAdd c.freeNodes c.nodes.size := by
   have hN0 : NodesOk ({ c with nodes := ns } : Cell R) :=
     ⟨hN.nodup, fun i => by
       show i ∈ c.freeNodes ↔ (i < ns.size ∧ usedA ns i = false)
@@ -101,13 +101,15 @@ theorem addNode_store_nodes {c : Cell R} {ns : Array (Node R)} {p m : V3 R} {c1 
     unfold newSlot; simp only [hsz]
   obtain ⟨a1, a2, a3, a4⟩ := addNode_nodes hN0 p m
   have h1 : c1 = (addNode ({ c with nodes := ns } : Cell R) p m).1 := by rw [hr]
-  rw [← h1, hnew] at a1 a2 a3 a4
-  refine ⟨fun j => ?_, a2, fun j hj => a3 j (by show j < ns.size; rw [hsz]; exact hj), fun j hj => ?_, ?_⟩
+  rw [← h1] at a1 a2 a3 a4
+  rw [hnew] at a1 a4
+  refine ⟨fun j => ?_, a2, fun j hj => a3 j (by show j < ns.size; rw [hsz]; exact hj), fun j hj => ?_, ?_, ?_⟩
   · rw [a1 j]; show (_ || usedA ns j) = _; rw [hu]; rfl
   · rcases a4 j hj with hh | hh
     · left; have : j < ns.size := hh; rw [hsz] at this; exact this
     · exact Or.inr hh
   · rw [h1]; exact edges_addNode _ _ _
+  · rw [h1, addNode_size]; show sizeAfterAdd c.freeNodes ns.size = _; rw [hsz]
 
 /-! ## 2. the record of one `split_edge` -/
 
@@ -146,6 +148,8 @@ structure SplitRun (c c' : Cell R) (e : Edge) (chk chk' : CheckSet)
   ged : getEdge c' (newSlot c) dd = some eed
   chk_eq : chk' = updF (updF (updF (updF (ins4 chk eea eeb eec eed) e.n1 cc g1 f3) e.n2 cc g1 f5) e.n1 dd g2 f4)
     e.n2 dd g2 f6
+  full : FreeFull c → FreeFull c'
+  size_eq : c'.nodes.size = sizeAfterAdd c.freeNodes c.nodes.size
 
 theorem splitEdge_run {fn : Fn R} {k : SplitConsts R} {c c' : Cell R} {e : Edge} {chk chk' : CheckSet}
     (h : splitEdge fn k c e chk = .ok (c', chk')) (hf : FaceFreeOk c) (hN : NodesOk c)
@@ -195,6 +199,1120 @@ theorem splitEdge_run {fn : Fn R} {k : SplitConsts R} {c c' : Cell R} {e : Edge}
   obtain ⟨c1, ee⟩ := r
   simp only [] at h
   obtain ⟨hS1, hF1, hE⟩ := addNode_store hr hsz
-  obtain ⟨hU1, hFN1, hsz1, hsz2, hEd1⟩ := addNode_store_nodes hr hN hsz hu
+  obtain ⟨hU1, hFN1, hsz1, hsz2, hEd1, hszE⟩ := addNode_store_nodes hr hN hsz hu
   subst hE
-  sorry
+  bok h with c2, h2
+  bok h with c3, h3
+  bok h with ⟨c4, f3, f5⟩, h4
+  bok h with ⟨c5, f4, f6⟩, h5
+  simp only [] at h
+  bok h with eea, hea
+  bok h with eeb, heb
+  bok h with eec, hec
+  bok h with eed, hed
+  cases h
+  have hf1' : c.faces[g1]? = some f1 := by opt_ok hf1
+  have hf2' : c.faces[g2]? = some f2 := by opt_ok hf2
+  have hcc' : oppositeNode f1 e.n1 e.n2 = some cc := by opt_ok hcc
+  have hdd' : oppositeNode f2 e.n1 e.n2 = some dd := by opt_ok hdd
+  obtain ⟨f, hfa, _, ht1⟩ := slot_some_iff.1 hs1
+  rw [hf1'] at hfa; cases hfa
+  obtain ⟨f, hfa, _, ht2⟩ := slot_some_iff.1 hs2
+  rw [hf2'] at hfa; cases hfa
+  subst ht1; subst ht2
+  obtain ⟨hcca, hccb, hcc1⟩ := oppositeNode_some hcc'
+  obtain ⟨hdda, hddb, hdd2⟩ := oppositeNode_some hdd'
+  have na' := ne_of_fresh hfresh hs1 h1a
+  have nb' := ne_of_fresh hfresh hs1 h1b
+  have nc' := ne_of_fresh hfresh hs1 hcc1
+  have nd' := ne_of_fresh hfresh hs2 hdd2
+  have T1 : IsTri (f1.n1, f1.n2, f1.n3) e.n1 e.n2 cc := ⟨hab, Ne.symm hcca, Ne.symm hccb, h1a, h1b, hcc1⟩
+  have T2 : IsTri (f2.n1, f2.n2, f2.n3) e.n1 e.n2 dd := ⟨hab, Ne.symm hdda, Ne.symm hddb, h2a, h2b, hdd2⟩
+  -- the two deletions
+  have ffo1 : FaceFreeOk c1 := hf.congr hS1 hF1
+  have s1' : (slots c1)[g1]? = some (some (f1.n1, f1.n2, f1.n3)) := by rw [hS1]; exact hs1
+  have D1 := deleteFace_spec h2 s1'
+  have s2' : (slots c2)[g2]? = some (some (f2.n1, f2.n2, f2.n3)) := by
+    rw [D1.slots_eq, List.getElem?_set_ne hg12, hS1]; exact hs2
+  have D2 := deleteFace_spec h3 s2'
+  have ffo3 : FaceFreeOk c3 := D2.ffo (D1.ffo ffo1)
+  have hS3 : slots c3 = ((slots c).set g1 none).set g2 none := by rw [D2.slots_eq, D1.slots_eq, hS1]
+  -- the four additions
+  obtain ⟨c3a, u3, u5, A3, A5, hu35, full4⟩ := two_addFace_run h4 ffo3
+  obtain ⟨c4a, u4, u6, A4, A6, hu46, full5⟩ := two_addFace_run h5 A5.ffo
+  have U3 : IsTri u3 cc e.n1 (newSlot c) := by
+    rcases hu35 with ⟨rfl, _⟩ | ⟨rfl, _⟩
+    · exact isTri_mk hcca nc' na'
+    · exact (isTri_mk nc' hcca (Ne.symm na')).swap
+  have U5 : IsTri u5 cc (newSlot c) e.n2 := by
+    rcases hu35 with ⟨_, rfl⟩ | ⟨_, rfl⟩
+    · exact isTri_mk nc' hccb (Ne.symm nb')
+    · exact (isTri_mk hccb nc' nb').swap
+  have U4 : IsTri u4 dd e.n1 (newSlot c) := by
+    rcases hu46 with ⟨rfl, _⟩ | ⟨rfl, _⟩
+    · exact isTri_mk hdda nd' na'
+    · exact (isTri_mk nd' hdda (Ne.symm na')).swap
+  have U6 : IsTri u6 dd (newSlot c) e.n2 := by
+    rcases hu46 with ⟨_, rfl⟩ | ⟨_, rfl⟩
+    · exact isTri_mk nd' hddb (Ne.symm nb')
+    · exact (isTri_mk hddb nd' nb').swap
+  -- the four new slots are different
+  have d53 : f5 ≠ f3 := fun he => A5.fresh u3 (by rw [he]; exact A3.got)
+  have d45 : f4 ≠ f5 := fun he => A4.fresh u5 (by rw [he]; exact A5.got)
+  have d43 : f4 ≠ f3 := fun he => A4.fresh u3 (by rw [he, A5.other f3 (Ne.symm d53)]; exact A3.got)
+  have d64 : f6 ≠ f4 := fun he => A6.fresh u4 (by rw [he]; exact A4.got)
+  have d65 : f6 ≠ f5 := fun he => A6.fresh u5 (by rw [he, A4.other f5 (Ne.symm d45)]; exact A5.got)
+  have d63 : f6 ≠ f3 := fun he => A6.fresh u3 (by
+    rw [he, A4.other f3 (Ne.symm d43), A5.other f3 (Ne.symm d53)]; exact A3.got)
+  have hS' : ∀ g : Nat, (slots (setFaceType (setFaceType (setFaceType (setFaceType c5 f3 f1.typ) f4 f2.typ) f5 f1.typ) f6
+      f2.typ))[g]? = (slots c5)[g]? := by
+    intro g
+    rw [slots_setFaceType, slots_setFaceType, slots_setFaceType, slots_setFaceType]
+  have dead3 : ∀ (f : Nat) (u : Tri), (slots c3)[f]? ≠ some (some u) → (slots c)[f]? = some (some u) → (f = g1 ∨ f = g2) := by
+    intro f u hn hs
+    by_contra hc
+    push Not at hc
+    apply hn
+    rw [hS3, List.getElem?_set_ne (Ne.symm hc.2), List.getElem?_set_ne (Ne.symm hc.1)]
+    exact hs
+  have hN1 : c5.nodes = c1.nodes := by
+    rw [A6.nodes_eq, A4.nodes_eq, A5.nodes_eq, A3.nodes_eq, D2.nodes_eq, D1.nodes_eq]
+  have hFN1' : c5.freeNodes = c1.freeNodes := by
+    rw [A6.freeNodes_eq, A4.freeNodes_eq, A5.freeNodes_eq, A3.freeNodes_eq, D2.freeNodes_eq, D1.freeNodes_eq]
+  have hNf : (setFaceType (setFaceType (setFaceType (setFaceType c5 f3 f1.typ) f4 f2.typ) f5 f1.typ) f6
+      f2.typ).nodes = c1.nodes := by
+    rw [(nodes_setFaceType _ _ _).1, (nodes_setFaceType _ _ _).1, (nodes_setFaceType _ _ _).1,
+      (nodes_setFaceType _ _ _).1, hN1]
+  have hFNf : (setFaceType (setFaceType (setFaceType (setFaceType c5 f3 f1.typ) f4 f2.typ) f5 f1.typ) f6
+      f2.typ).freeNodes = c1.freeNodes := by
+    rw [(nodes_setFaceType _ _ _).2, (nodes_setFaceType _ _ _).2, (nodes_setFaceType _ _ _).2,
+      (nodes_setFaceType _ _ _).2, hFN1']
+  refine ⟨g1, g2, cc, dd, f3, f5, f4, f6, _, _, u3, u5, u4, u6, eea, eeb, eec, eed,
+    ⟨hg1, hg2, hg12, hs1, hs2, T1, T2, U3, U5, U4, U6, ?_, ?_, ?_, ?_,
+      ⟨Ne.symm d53, Ne.symm d43, Ne.symm d63, Ne.symm d45, Ne.symm d65, Ne.symm d64⟩, ?_, ?_, ?_, ?_, ?_, ?_,
+      by opt_ok hea, by opt_ok heb, by opt_ok hec, by opt_ok hed, rfl, ?_, by rw [hNf]; exact hszE⟩⟩
+  · rw [hS', A6.other f3 (Ne.symm d63), A4.other f3 (Ne.symm d43), A5.other f3 (Ne.symm d53)]; exact A3.got
+  · rw [hS', A6.other f5 (Ne.symm d65), A4.other f5 (Ne.symm d45)]; exact A5.got
+  · rw [hS', A6.other f4 (Ne.symm d64)]; exact A4.got
+  · rw [hS']; exact A6.got
+  · rintro f (rfl | rfl | rfl | rfl) u hs
+    · exact dead3 _ u (A3.fresh u) hs
+    · exact dead3 _ u (by rw [← A3.other _ d53]; exact A5.fresh u) hs
+    · exact dead3 _ u (by rw [← A3.other _ d43, ← A5.other _ d45]; exact A4.fresh u) hs
+    · exact dead3 _ u (by rw [← A3.other _ d63, ← A5.other _ d65, ← A4.other _ d64]; exact A6.fresh u) hs
+  · intro g h3 h5 h4 h6
+    rw [hS', A6.other g h6, A4.other g h4, A5.other g h5, A3.other g h3, hS3]
+  · intro j
+    show usedA _ j = _
+    rw [hNf]; exact hU1 j
+  · rw [hFNf]; exact hFN1
+  · intro j hj; rw [hNf]; exact hsz1 j hj
+  · intro j hj; rw [hNf] at hj; exact hsz2 j hj
+  · intro hF
+    have F1 : FreeFull c1 := hF.congr hS1 hF1
+    have F5 := full5 (full4 (deleteFace_full h3 (deleteFace_full h2 F1)))
+    refine F5.congr ?_ ?_
+    · rw [slots_setFaceType, slots_setFaceType, slots_setFaceType, slots_setFaceType]
+    · rw [freeFaces_setFaceType, freeFaces_setFaceType, freeFaces_setFaceType, freeFaces_setFaceType]
+
+/-! ## 3. consequences of the record -/
+
+/-- the node store after one slot has been taken from the queue (`add_node`), for any face store whose new triangles use
+    only old used nodes and the new one -/
+theorem nodesOk_of_add {c c' : Cell R} (hN : NodesOk c)
+    (used : ∀ j, usedN c' j = (decide (j = newSlot c) || usedN c j))
+    (freeNodes : c'.freeNodes = c.freeNodes.tail)
+    (size1 : ∀ j, j < c.nodes.size → j < c'.nodes.size)
+    (size2 : ∀ j, j < c'.nodes.size → j < c.nodes.size ∨ j = newSlot c)
+    (live : ∀ (g : Nat) (t : Tri) (v : Nat), (slots c')[g]? = some (some t) → hasNode t v = true →
+      (v = newSlot c ∨ usedN c v = true)) : NodesOk c' := by
+  refine ⟨by rw [freeNodes]; exact hN.nodup.tail, fun i => ?_, fun g t v hg hv => ?_⟩
+  · rw [freeNodes, used]
+    constructor
+    · intro hi
+      have hm : i ∈ c.freeNodes := List.mem_of_mem_tail hi
+      obtain ⟨a, b⟩ := (hN.free i).1 hm
+      refine ⟨size1 i a, ?_⟩
+      have : i ≠ newSlot c := by
+        intro he
+        unfold newSlot at he
+        cases hf : c.freeNodes with
+        | nil => rw [hf] at hi; cases hi
+        | cons x rest =>
+          rw [hf] at he hi
+          simp only at he
+          subst he
+          have := hN.nodup
+          rw [hf] at this
+          exact (List.nodup_cons.1 this).1 hi
+      simp [this, b]
+    · rintro ⟨a, b⟩
+      simp only [Bool.or_eq_false_iff, decide_eq_false_iff_not] at b
+      have hlt : i < c.nodes.size := by
+        rcases size2 i a with hh | hh
+        · exact hh
+        · exact absurd hh b.1
+      have hm := (hN.free i).2 ⟨hlt, b.2⟩
+      unfold newSlot at b
+      cases hf : c.freeNodes with
+      | nil => rw [hf] at hm; cases hm
+      | cons x rest =>
+        rw [hf] at hm b
+        simp only at b
+        rcases List.mem_cons.1 hm with hh | hh
+        · exact absurd hh b.1
+        · exact hh
+  · rw [used]
+    rcases live g t v hg hv with hh | hh
+    · simp [hh]
+    · simp [hh]
+
+section
+variable {c c' : Cell R} {e : Edge} {chk chk' : CheckSet} {g1 g2 cc dd f3 f5 f4 f6 : Nat} {t1 t2 u3 u5 u4 u6 : Tri}
+  {eea eeb eec eed : Edge}
+
+/-- which face has which side after the split -/
+theorem SplitRun.sideK (S : SplitRun c c' e chk chk' g1 g2 cc dd f3 f5 f4 f6 t1 t2 u3 u5 u4 u6 eea eeb eec eed)
+    (g k : Nat) :
+    SideK (slots c') g k ↔ ((SideK (slots c) g k ∧ g ≠ g1 ∧ g ≠ g2) ∨ (g = f3 ∧ k ∈ sideKeys u3) ∨
+      (g = f5 ∧ k ∈ sideKeys u5) ∨ (g = f4 ∧ k ∈ sideKeys u4) ∨ (g = f6 ∧ k ∈ sideKeys u6)) := by
+  obtain ⟨d35, d34, d36, d54, d56, d46⟩ := S.fdist
+  have hdead : ∀ f, (f = f3 ∨ f = f5 ∨ f = f4 ∨ f = f6) → ¬ (SideK (slots c) f k ∧ f ≠ g1 ∧ f ≠ g2) := by
+    rintro f hf ⟨⟨u, hu, _⟩, h1, h2⟩
+    rcases S.dead f hf u hu with hh | hh
+    · exact h1 hh
+    · exact h2 hh
+  have one : ∀ (f : Nat) (u : Tri), (slots c')[f]? = some (some u) → (SideK (slots c') f k ↔ k ∈ sideKeys u) := by
+    intro f u hu
+    constructor
+    · rintro ⟨u', hu', hk⟩; rw [hu] at hu'; cases hu'; exact hk
+    · intro hk; exact ⟨u, hu, hk⟩
+  by_cases h3 : g = f3
+  · subst h3
+    rw [one _ _ S.n3]
+    constructor
+    · intro hk; exact Or.inr (Or.inl ⟨rfl, hk⟩)
+    · rintro (hh | ⟨_, hk⟩ | ⟨hh, _⟩ | ⟨hh, _⟩ | ⟨hh, _⟩)
+      · exact (hdead _ (Or.inl rfl) hh).elim
+      · exact hk
+      · exact absurd hh d35
+      · exact absurd hh d34
+      · exact absurd hh d36
+  by_cases h5 : g = f5
+  · subst h5
+    rw [one _ _ S.n5]
+    constructor
+    · intro hk; exact Or.inr (Or.inr (Or.inl ⟨rfl, hk⟩))
+    · rintro (hh | ⟨hh, _⟩ | ⟨_, hk⟩ | ⟨hh, _⟩ | ⟨hh, _⟩)
+      · exact (hdead _ (Or.inr (Or.inl rfl)) hh).elim
+      · exact absurd hh h3
+      · exact hk
+      · exact absurd hh d54
+      · exact absurd hh d56
+  by_cases h4 : g = f4
+  · subst h4
+    rw [one _ _ S.n4]
+    constructor
+    · intro hk; exact Or.inr (Or.inr (Or.inr (Or.inl ⟨rfl, hk⟩)))
+    · rintro (hh | ⟨hh, _⟩ | ⟨hh, _⟩ | ⟨_, hk⟩ | ⟨hh, _⟩)
+      · exact (hdead _ (Or.inr (Or.inr (Or.inl rfl))) hh).elim
+      · exact absurd hh h3
+      · exact absurd hh h5
+      · exact hk
+      · exact absurd hh d46
+  by_cases h6 : g = f6
+  · subst h6
+    rw [one _ _ S.n6]
+    constructor
+    · intro hk; exact Or.inr (Or.inr (Or.inr (Or.inr ⟨rfl, hk⟩)))
+    · rintro (hh | ⟨hh, _⟩ | ⟨hh, _⟩ | ⟨hh, _⟩ | ⟨_, hk⟩)
+      · exact (hdead _ (Or.inr (Or.inr (Or.inr rfl))) hh).elim
+      · exact absurd hh h3
+      · exact absurd hh h5
+      · exact absurd hh h4
+      · exact hk
+  · have : SideK (slots c') g k ↔ (SideK (slots c) g k ∧ g ≠ g1 ∧ g ≠ g2) := by
+      unfold SideK
+      rw [S.other g h3 h5 h4 h6]
+      have := sideK_set_none ((slots c).set g1 none) g2 g k
+      unfold SideK at this
+      rw [this]
+      have := sideK_set_none (slots c) g1 g k
+      unfold SideK at this
+      rw [this]
+      tauto
+    rw [this]
+    constructor
+    · exact Or.inl
+    · rintro (hh | ⟨hh, _⟩ | ⟨hh, _⟩ | ⟨hh, _⟩ | ⟨hh, _⟩)
+      · exact hh
+      · exact absurd hh h3
+      · exact absurd hh h5
+      · exact absurd hh h4
+      · exact absurd hh h6
+
+/-- a live slot after the split is one of the four new ones or an old one -/
+theorem SplitRun.slot (S : SplitRun c c' e chk chk' g1 g2 cc dd f3 f5 f4 f6 t1 t2 u3 u5 u4 u6 eea eeb eec eed)
+    {g : Nat} {u : Tri} (h : (slots c')[g]? = some (some u)) :
+    u = u3 ∨ u = u5 ∨ u = u4 ∨ u = u6 ∨ ((slots c)[g]? = some (some u) ∧ g ≠ g1 ∧ g ≠ g2) := by
+  by_cases h3 : g = f3
+  · subst h3; rw [S.n3] at h; cases h; exact Or.inl rfl
+  by_cases h5 : g = f5
+  · subst h5; rw [S.n5] at h; cases h; exact Or.inr (Or.inl rfl)
+  by_cases h4 : g = f4
+  · subst h4; rw [S.n4] at h; cases h; exact Or.inr (Or.inr (Or.inl rfl))
+  by_cases h6 : g = f6
+  · subst h6; rw [S.n6] at h; cases h; exact Or.inr (Or.inr (Or.inr (Or.inl rfl)))
+  · right; right; right; right
+    rw [S.other g h3 h5 h4 h6, List.getElem?_set] at h
+    by_cases hg2 : g2 = g
+    · rw [if_pos hg2] at h; split at h <;> cases h
+    · rw [if_neg hg2, List.getElem?_set] at h
+      by_cases hg1 : g1 = g
+      · rw [if_pos hg1] at h; split at h <;> cases h
+      · rw [if_neg hg1] at h
+        exact ⟨h, fun e => hg1 e.symm, fun e => hg2 e.symm⟩
+
+theorem SplitRun.nodesOk (S : SplitRun c c' e chk chk' g1 g2 cc dd f3 f5 f4 f6 t1 t2 u3 u5 u4 u6 eea eeb eec eed)
+    (hN : NodesOk c) : NodesOk c' := by
+  have ua := hN.live g1 t1 e.n1 S.s1 S.T1.2.2.2.1
+  have ub := hN.live g1 t1 e.n2 S.s1 S.T1.2.2.2.2.1
+  have uc := hN.live g1 t1 cc S.s1 S.T1.2.2.2.2.2
+  have ud := hN.live g2 t2 dd S.s2 S.T2.2.2.2.2.2
+  refine nodesOk_of_add hN S.used S.freeNodes S.size1 S.size2 (fun g t v hg hv => ?_)
+  rcases S.slot hg with rfl | rfl | rfl | rfl | ⟨ho, _, _⟩
+  · rcases (S.U3.hasNode_iff' v).1 hv with rfl | rfl | rfl
+    · exact Or.inr uc
+    · exact Or.inr ua
+    · exact Or.inl rfl
+  · rcases (S.U5.hasNode_iff' v).1 hv with rfl | rfl | rfl
+    · exact Or.inr uc
+    · exact Or.inl rfl
+    · exact Or.inr ub
+  · rcases (S.U4.hasNode_iff' v).1 hv with rfl | rfl | rfl
+    · exact Or.inr ud
+    · exact Or.inr ua
+    · exact Or.inl rfl
+  · rcases (S.U6.hasNode_iff' v).1 hv with rfl | rfl | rfl
+    · exact Or.inr ud
+    · exact Or.inl rfl
+    · exact Or.inr ub
+  · exact Or.inr (hN.live g t v ho hv)
+
+end
+
+/-- an index entry has room for two faces only -/
+theorem idx_at_most_two {c : Cell R} (hI : EdgeIdxComplete c) {k p q r : Nat} (hp : SideK (slots c) p k)
+    (hq : SideK (slots c) q k) (hr : SideK (slots c) r k) : p = q ∨ p = r ∨ q = r := by
+  obtain ⟨E, hE⟩ := hI.get hp
+  obtain ⟨_, _, _, eP⟩ := hI.of_find hE
+  have a := (Edge.hasFace_iff E p).1 ((eP p).2 hp)
+  have b := (Edge.hasFace_iff E q).1 ((eP q).2 hq)
+  have d := (Edge.hasFace_iff E r).1 ((eP r).2 hr)
+  rcases a with a | a <;> rcases b with b | b <;> rcases d with d | d <;>
+    simp_all
+
+/-! ## 4. the guard: the two opposite nodes are different -/
+
+section
+variable {c c' : Cell R} {e : Edge} {chk chk' : CheckSet} {g1 g2 cc dd f3 f5 f4 f6 : Nat} {t1 t2 u3 u5 u4 u6 : Tri}
+  {eea eeb eec eed : Edge}
+
+/-- a successful `split_edge` had two different opposite nodes (otherwise the edge `{c, e}` would get four faces and
+    `edge::add_face` throws) -/
+theorem SplitRun.cd (S : SplitRun c c' e chk chk' g1 g2 cc dd f3 f5 f4 f6 t1 t2 u3 u5 u4 u6 eea eeb eec eed)
+    (hI' : EdgeIdxComplete c') : cc ≠ dd := by
+  intro hcd
+  obtain ⟨d35, d34, d36, d54, d56, d46⟩ := S.fdist
+  have k3 : SideK (slots c') f3 (Edge.keyOf cc (newSlot c)) :=
+    ⟨u3, S.n3, (S.U3.sideKeys_iff _).2 (Or.inr (Or.inl rfl))⟩
+  have k5 : SideK (slots c') f5 (Edge.keyOf cc (newSlot c)) :=
+    ⟨u5, S.n5, (S.U5.sideKeys_iff _).2 (Or.inl rfl)⟩
+  have k4 : SideK (slots c') f4 (Edge.keyOf cc (newSlot c)) :=
+    ⟨u4, S.n4, (S.U4.sideKeys_iff _).2 (Or.inr (Or.inl (by rw [hcd])))⟩
+  rcases idx_at_most_two hI' k3 k5 k4 with hh | hh | hh
+  · exact d35 hh
+  · exact d34 hh
+  · exact d54 hh
+
+theorem opp_of_isTri {t : Tri} {a b x : Nat} (hT : IsTri t a b x) (hd : hasDir t a b = true) : opp t a b = x := by
+  have := (node_of_hasDir (x := x) hd).1 hT.2.2.2.2.2
+  rcases this with hh | hh | hh
+  · exact hh.symm
+  · exact absurd hh.symm hT.2.1
+  · exact absurd hh.symm hT.2.2.1
+
+theorem opp_of_isTri' {t : Tri} {a b x : Nat} (hT : IsTri t a b x) (hd : hasDir t b a = true) : opp t b a = x := by
+  have := (node_of_hasDir (x := x) hd).1 hT.2.2.2.2.2
+  rcases this with hh | hh | hh
+  · exact hh.symm
+  · exact absurd hh.symm hT.2.2.1
+  · exact absurd hh.symm hT.2.1
+
+/-- the guard of the abstract split holds -/
+theorem SplitRun.guard (S : SplitRun c c' e chk chk' g1 g2 cc dd f3 f5 f4 f6 t1 t2 u3 u5 u4 u6 eea eeb eec eed)
+    (hI' : EdgeIdxComplete c') (hx : CopyOk c e) :
+    ∀ s1 s2, findDir (abs c) e.n1 e.n2 = some s1 → findDir (abs c) e.n2 e.n1 = some s2 →
+      opp s1 e.n1 e.n2 ≠ opp s2 e.n2 e.n1 := by
+  intro s1 s2 h1 h2
+  have hcd := S.cd hI'
+  obtain ⟨hle, hw, hP⟩ := hx
+  have hk := Edge.key_eq_keyOf hle
+  obtain ⟨m1, d1⟩ := findDir_some h1
+  obtain ⟨m2, d2⟩ := findDir_some h2
+  have which : ∀ (s : Tri) (g : Nat), (slots c)[g]? = some (some s) → Edge.keyOf e.n1 e.n2 ∈ sideKeys s →
+      (s = t1 ∨ s = t2) := by
+    intro s g hg hq
+    have := (hP g).2 ⟨s, hg, by rw [hk]; exact hq⟩
+    rw [Edge.hasFace_iff, S.ef1, S.ef2] at this
+    rcases this with hh | hh
+    · cases hh; rw [S.s1] at hg; cases hg; exact Or.inl rfl
+    · cases hh; rw [S.s2] at hg; cases hg; exact Or.inr rfl
+  obtain ⟨ga, hga⟩ := mem_abs_iff.1 m1
+  obtain ⟨gb, hgb⟩ := mem_abs_iff.1 m2
+  have w1 := which s1 ga hga (sideKey_of_hasDir d1)
+  have w2 := which s2 gb hgb (by rw [Edge.keyOf_comm]; exact sideKey_of_hasDir d2)
+  rcases w1 with rfl | rfl <;> rcases w2 with rfl | rfl
+  · exact absurd d2 (by
+      have := hasDir_not_both S.T1.nondeg d1
+      simpa using this)
+  · rw [opp_of_isTri S.T1 d1, opp_of_isTri' S.T2 d2]; exact hcd
+  · rw [opp_of_isTri S.T2 d1, opp_of_isTri' S.T1 d2]; exact Ne.symm hcd
+  · exact absurd d2 (by
+      have := hasDir_not_both S.T2.nondeg d1
+      simpa using this)
+
+end
+
+/-! ## 5. the check set -/
+
+theorem replaceFace_key (z : Edge) (o n : Nat) : (z.replaceFace o n).key = z.key := by
+  unfold Edge.replaceFace; split <;> rfl
+
+theorem replaceFace_n (z : Edge) (o n : Nat) : (z.replaceFace o n).n1 = z.n1 ∧ (z.replaceFace o n).n2 = z.n2 := by
+  unfold Edge.replaceFace; split <;> exact ⟨rfl, rfl⟩
+
+/-- `replace_face(o, n)` on a record that lists `o` and (unless `n = o`) not `n` -/
+theorem replaceFace_spec {z : Edge} {o n : Nat} (hw : WfFaces z) (ho : z.hasFace o = true)
+    (hn : n = o ∨ z.hasFace n = false) :
+    WfFaces (z.replaceFace o n) ∧ ∀ g, (z.replaceFace o n).hasFace g = true ↔ ((z.hasFace g = true ∧ g ≠ o) ∨ g = n) := by
+  have hn' : n = o ∨ ¬ (z.f1 = some n ∨ z.f2 = some n) := by
+    rcases hn with hh | hh
+    · exact Or.inl hh
+    · right; rw [← Edge.hasFace_iff, hh]; simp
+  clear hn
+  obtain ⟨n1, n2, f1, f2⟩ := z
+  unfold WfFaces at hw ⊢
+  simp only [Edge.hasFace_iff] at ho ⊢
+  unfold Edge.replaceFace
+  dsimp only at hw ho hn' ⊢
+  by_cases h1 : f1 = some o
+  · subst h1
+    simp only [beq_self_eq_true, if_true]
+    have h2 : f2 ≠ some o := fun hh => hw.2 hh.symm
+    refine ⟨⟨by simp, ?_⟩, fun g => ?_⟩
+    · intro hh
+      rcases hn' with rfl | hn
+      · exact h2 hh.symm
+      · exact hn (Or.inr hh.symm)
+    · simp only [Option.some.injEq]
+      constructor
+      · rintro (hh | hh)
+        · exact Or.inr hh.symm
+        · exact Or.inl ⟨Or.inr hh, fun he => h2 (by rw [hh, he])⟩
+      · rintro (⟨hh | hh, hne⟩ | hh)
+        · exact absurd hh.symm hne
+        · exact Or.inr hh
+        · exact Or.inl hh.symm
+  · have hb : (f1 == some o) = false := beq_false_of_ne h1
+    simp only [hb]
+    have h2 : f2 = some o := by
+      rcases ho with hh | hh
+      · exact absurd hh h1
+      · exact hh
+    subst h2
+    refine ⟨⟨hw.1, ?_⟩, fun g => ?_⟩
+    · intro hh
+      rcases hn' with rfl | hn
+      · exact h1 hh
+      · exact hn (Or.inl hh)
+    · simp only [Option.some.injEq, Bool.false_eq_true, if_false]
+      constructor
+      · rintro (hh | hh)
+        · exact Or.inl ⟨Or.inl hh, fun he => h1 (by rw [hh, he])⟩
+        · exact Or.inr hh.symm
+      · rintro (⟨hh | hh, hne⟩ | hh)
+        · exact Or.inl hh
+        · exact absurd hh.symm hne
+        · exact Or.inr hh.symm
+
+/-- a valid copy whose face `o` is replaced by `n` is valid for a face store in which exactly that happened -/
+theorem copy_replace {c c' : Cell R} {z : Edge} {o n : Nat} (hz : CopyOk c z) (ho : z.hasFace o = true)
+    (hn : n = o ∨ z.hasFace n = false)
+    (hs : ∀ g, SideK (slots c') g z.key ↔ ((SideK (slots c) g z.key ∧ g ≠ o) ∨ g = n)) :
+    CopyOk c' (z.replaceFace o n) := by
+  obtain ⟨hle, hw, hP⟩ := hz
+  obtain ⟨w', hf'⟩ := replaceFace_spec hw ho hn
+  refine ⟨by rw [(replaceFace_n z o n).1, (replaceFace_n z o n).2]; exact hle, w', fun g => ?_⟩
+  rw [replaceFace_key, hf' g, hs g, hP g]
+
+theorem sorted_map_key {s : EdgeSet} (hs : EdgeSet.Sorted s) (φ : Edge → Edge) (hφ : ∀ z, (φ z).key = z.key) :
+    EdgeSet.Sorted (s.map φ) := by
+  unfold EdgeSet.Sorted at hs ⊢
+  rw [List.pairwise_map]
+  exact hs.imp (fun h => by rw [hφ, hφ]; exact h)
+
+/-- on a key-sorted set the `find` + `replace_face` of `split_edge` is a map -/
+theorem updF_eq_map {s : EdgeSet} (hs : EdgeSet.Sorted s) (x y o n : Nat) :
+    updF s x y o n = s.map (fun z => if z.key = Edge.keyOf x y then z.replaceFace o n else z) := by
+  unfold updF
+  cases hf : EdgeSet.find? s (Edge.keyOf x y) with
+  | none =>
+    simp only
+    symm
+    conv_rhs => rw [← List.map_id s]
+    apply List.map_congr_left
+    intro z hz
+    have : z.key ≠ Edge.keyOf x y := by
+      intro hk
+      have := EdgeSet.find?_of_mem hs hz
+      rw [hk, hf] at this; cases this
+    simp [this]
+  | some ed =>
+    simp only
+    unfold EdgeSet.update
+    apply List.map_congr_left
+    intro z hz
+    have ek := EdgeSet.find?_key hf
+    rw [replaceFace_key, ek]
+    by_cases hk : z.key = Edge.keyOf x y
+    · have := EdgeSet.find?_of_mem hs hz
+      rw [hk, hf] at this
+      cases this
+      simp [hk]
+    · simp [hk]
+
+
+/-- a valid copy does not mention a node that occurs in no live face -/
+theorem CopyOk.no_fresh {c : Cell R} {z : Edge} (hz : CopyOk c z) {n : Nat} (hfresh : FreshNode c n) (y : Nat) :
+    z.key ≠ Edge.keyOf n y := by
+  intro hk
+  obtain ⟨hle, hw, hP⟩ := hz
+  obtain ⟨p, h1⟩ : ∃ p, z.f1 = some p := Option.ne_none_iff_exists'.1 hw.1
+  obtain ⟨t, ht, hq⟩ := (hP p).1 ((Edge.hasFace_iff _ _).2 (Or.inl h1))
+  rw [hk] at hq
+  have := (hasNode_of_sideKey hq).1
+  rw [hfresh p t ht] at this; cases this
+
+section
+variable {c c' : Cell R} {e : Edge} {chk chk' : CheckSet} {g1 g2 cc dd f3 f5 f4 f6 : Nat} {t1 t2 u3 u5 u4 u6 : Tri}
+  {eea eeb eec eed : Edge}
+
+/-- one of the four edges of the quadrilateral: the deleted face `o` is replaced by the new face `n` -/
+theorem SplitRun.corner (S : SplitRun c c' e chk chk' g1 g2 cc dd f3 f5 f4 f6 t1 t2 u3 u5 u4 u6 eea eeb eec eed)
+    {K o n : Nat} (ho12 : o = g1 ∨ o = g2)
+    (hKo : ∀ g, (g = g1 ∨ g = g2) → (SideK (slots c) g K ↔ g = o))
+    (hKn : ∀ g, ((g = f3 ∧ K ∈ sideKeys u3) ∨ (g = f5 ∧ K ∈ sideKeys u5) ∨ (g = f4 ∧ K ∈ sideKeys u4) ∨
+      (g = f6 ∧ K ∈ sideKeys u6)) ↔ g = n)
+    {z : Edge} (hz : CopyOk c z) (hk : z.key = K) : CopyOk c' (z.replaceFace o n) := by
+  have hso : SideK (slots c) o K := (hKo o ho12).2 rfl
+  have hnew : n = f3 ∨ n = f5 ∨ n = f4 ∨ n = f6 := by
+    rcases (hKn n).2 rfl with ⟨hh, _⟩ | ⟨hh, _⟩ | ⟨hh, _⟩ | ⟨hh, _⟩
+    · exact Or.inl hh
+    · exact Or.inr (Or.inl hh)
+    · exact Or.inr (Or.inr (Or.inl hh))
+    · exact Or.inr (Or.inr (Or.inr hh))
+  refine copy_replace hz ((hz.2.2 o).2 (by rw [hk]; exact hso)) ?_ (fun g => ?_)
+  · by_cases hno : n = o
+    · exact Or.inl hno
+    · right
+      rw [Bool.eq_false_iff]
+      intro hf
+      have hs := (hz.2.2 n).1 hf
+      rw [hk] at hs
+      obtain ⟨u, hu, _⟩ := hs
+      have h12 := S.dead n hnew u hu
+      exact hno ((hKo n h12).1 ⟨u, hu, ‹_›⟩)
+  · rw [hk, S.sideK g K, hKn g]
+    constructor
+    · rintro (⟨hs, h1, h2⟩ | hh)
+      · refine Or.inl ⟨hs, fun he => ?_⟩
+        rcases ho12 with hh | hh
+        · exact h1 (he.trans hh)
+        · exact h2 (he.trans hh)
+      · exact Or.inr hh
+    · rintro (⟨hs, hne⟩ | hh)
+      · refine Or.inl ⟨hs, fun he => ?_, fun he => ?_⟩
+        · exact hne ((hKo g (Or.inl he)).1 hs)
+        · exact hne ((hKo g (Or.inr he)).1 hs)
+      · exact Or.inr hh
+
+theorem SplitRun.c1 (S : SplitRun c c' e chk chk' g1 g2 cc dd f3 f5 f4 f6 t1 t2 u3 u5 u4 u6 eea eeb eec eed)
+    (hI' : EdgeIdxComplete c') (hfresh : FreshNode c (newSlot c)) :
+    ∀ z, CopyOk c z → z.key = Edge.keyOf e.n1 cc → CopyOk c' (z.replaceFace g1 f3) := by
+  have hcd := S.cd hI'
+  obtain ⟨hab, hac, hbc, _, _, _⟩ := S.T1
+  obtain ⟨_, had, hbd, _, _, _⟩ := S.T2
+  obtain ⟨_, hce, hae, _, _, _⟩ := S.U3
+  obtain ⟨_, _, heb, _, _, _⟩ := S.U5
+  obtain ⟨_, hde, _, _, _, _⟩ := S.U4
+  -- the four keys
+  have s1 := S.T1.sideKeys_iff
+  have s2 := S.T2.sideKeys_iff
+  have q3 := S.U3.sideKeys_iff
+  have q5 := S.U5.sideKeys_iff
+  have q4 := S.U4.sideKeys_iff
+  have q6 := S.U6.sideKeys_iff
+  have side1 : ∀ g K, (g = g1 ∨ g = g2) → (SideK (slots c) g K ↔
+      ((g = g1 ∧ K ∈ sideKeys t1) ∨ (g = g2 ∧ K ∈ sideKeys t2))) := by
+    intro g K hg
+    constructor
+    · rintro ⟨u, hu, hq⟩
+      rcases hg with rfl | rfl
+      · rw [S.s1] at hu; cases hu; exact Or.inl ⟨rfl, hq⟩
+      · rw [S.s2] at hu; cases hu; exact Or.inr ⟨rfl, hq⟩
+    · rintro (⟨rfl, hq⟩ | ⟨rfl, hq⟩)
+      · exact ⟨t1, S.s1, hq⟩
+      · exact ⟨t2, S.s2, hq⟩
+  have g12 := S.g12
+  have kne : ∀ {p q x y : Nat}, ¬ ((p = x ∧ q = y) ∨ (p = y ∧ q = x)) → Edge.keyOf p q ≠ Edge.keyOf x y :=
+    fun hh he => hh (Edge.keyOf_eq_iff.1 he)
+  have koA : ∀ K, K ∈ sideKeys t1 → K ∉ sideKeys t2 → ∀ g, (g = g1 ∨ g = g2) → (SideK (slots c) g K ↔ g = g1) := by
+    intro K m1 m2 g hg
+    rw [side1 g K hg]
+    constructor
+    · rintro (⟨hh, _⟩ | ⟨_, hh⟩)
+      · exact hh
+      · exact absurd hh m2
+    · intro hh; exact Or.inl ⟨hh, m1⟩
+  have koB : ∀ K, K ∉ sideKeys t1 → K ∈ sideKeys t2 → ∀ g, (g = g1 ∨ g = g2) → (SideK (slots c) g K ↔ g = g2) := by
+    intro K m1 m2 g hg
+    rw [side1 g K hg]
+    constructor
+    · rintro (⟨_, hh⟩ | ⟨hh, _⟩)
+      · exact absurd hh m1
+      · exact hh
+    · intro hh; exact Or.inr ⟨hh, m2⟩
+  have kn : ∀ (K : Nat) (p3 p5 p4 p6 : Prop), (K ∈ sideKeys u3 ↔ p3) → (K ∈ sideKeys u5 ↔ p5) →
+      (K ∈ sideKeys u4 ↔ p4) → (K ∈ sideKeys u6 ↔ p6) → ∀ g,
+      (((g = f3 ∧ K ∈ sideKeys u3) ∨ (g = f5 ∧ K ∈ sideKeys u5) ∨ (g = f4 ∧ K ∈ sideKeys u4) ∨
+        (g = f6 ∧ K ∈ sideKeys u6)) ↔ ((g = f3 ∧ p3) ∨ (g = f5 ∧ p5) ∨ (g = f4 ∧ p4) ∨ (g = f6 ∧ p6))) := by
+    intro K p3 p5 p4 p6 h3 h5 h4 h6 g
+    rw [h3, h5, h4, h6]
+  have nin : ∀ {K : Nat} {u : Tri} {x y w : Nat}, IsTri u x y w → K ≠ Edge.keyOf x y → K ≠ Edge.keyOf x w →
+      K ≠ Edge.keyOf y w → (K ∈ sideKeys u ↔ False) := by
+    intro K u x y w hT a1 a2 a3
+    rw [hT.sideKeys_iff]
+    constructor
+    · rintro (hh | hh | hh)
+      · exact a1 hh
+      · exact a2 hh
+      · exact a3 hh
+    · exact False.elim
+  intro z hz hk
+  refine S.corner (K := Edge.keyOf e.n1 cc) (Or.inl rfl)
+    (koA _ ((s1 _).2 (Or.inr (Or.inl rfl))) (by
+      rw [s2]; rintro (hh | hh | hh)
+      · exact kne (by omega) hh
+      · exact kne (by omega) hh
+      · exact kne (by omega) hh)) (fun g => ?_) hz hk
+  rw [kn _ True False False False (iff_true_intro ((q3 _).2 (Or.inl (Edge.keyOf_comm _ _))))
+    (nin S.U5 (kne (by omega)) (kne (by omega)) (kne (by omega)))
+    (nin S.U4 (kne (by omega)) (kne (by omega)) (kne (by omega)))
+    (nin S.U6 (kne (by omega)) (kne (by omega)) (kne (by omega)))]
+  simp
+
+theorem SplitRun.c2 (S : SplitRun c c' e chk chk' g1 g2 cc dd f3 f5 f4 f6 t1 t2 u3 u5 u4 u6 eea eeb eec eed)
+    (hI' : EdgeIdxComplete c') (hfresh : FreshNode c (newSlot c)) :
+    ∀ z, CopyOk c z → z.key = Edge.keyOf e.n2 cc → CopyOk c' (z.replaceFace g1 f5) := by
+  have hcd := S.cd hI'
+  obtain ⟨hab, hac, hbc, _, _, _⟩ := S.T1
+  obtain ⟨_, had, hbd, _, _, _⟩ := S.T2
+  obtain ⟨_, hce, hae, _, _, _⟩ := S.U3
+  obtain ⟨_, _, heb, _, _, _⟩ := S.U5
+  obtain ⟨_, hde, _, _, _, _⟩ := S.U4
+  -- the four keys
+  have s1 := S.T1.sideKeys_iff
+  have s2 := S.T2.sideKeys_iff
+  have q3 := S.U3.sideKeys_iff
+  have q5 := S.U5.sideKeys_iff
+  have q4 := S.U4.sideKeys_iff
+  have q6 := S.U6.sideKeys_iff
+  have side1 : ∀ g K, (g = g1 ∨ g = g2) → (SideK (slots c) g K ↔
+      ((g = g1 ∧ K ∈ sideKeys t1) ∨ (g = g2 ∧ K ∈ sideKeys t2))) := by
+    intro g K hg
+    constructor
+    · rintro ⟨u, hu, hq⟩
+      rcases hg with rfl | rfl
+      · rw [S.s1] at hu; cases hu; exact Or.inl ⟨rfl, hq⟩
+      · rw [S.s2] at hu; cases hu; exact Or.inr ⟨rfl, hq⟩
+    · rintro (⟨rfl, hq⟩ | ⟨rfl, hq⟩)
+      · exact ⟨t1, S.s1, hq⟩
+      · exact ⟨t2, S.s2, hq⟩
+  have g12 := S.g12
+  have kne : ∀ {p q x y : Nat}, ¬ ((p = x ∧ q = y) ∨ (p = y ∧ q = x)) → Edge.keyOf p q ≠ Edge.keyOf x y :=
+    fun hh he => hh (Edge.keyOf_eq_iff.1 he)
+  have koA : ∀ K, K ∈ sideKeys t1 → K ∉ sideKeys t2 → ∀ g, (g = g1 ∨ g = g2) → (SideK (slots c) g K ↔ g = g1) := by
+    intro K m1 m2 g hg
+    rw [side1 g K hg]
+    constructor
+    · rintro (⟨hh, _⟩ | ⟨_, hh⟩)
+      · exact hh
+      · exact absurd hh m2
+    · intro hh; exact Or.inl ⟨hh, m1⟩
+  have koB : ∀ K, K ∉ sideKeys t1 → K ∈ sideKeys t2 → ∀ g, (g = g1 ∨ g = g2) → (SideK (slots c) g K ↔ g = g2) := by
+    intro K m1 m2 g hg
+    rw [side1 g K hg]
+    constructor
+    · rintro (⟨_, hh⟩ | ⟨hh, _⟩)
+      · exact absurd hh m1
+      · exact hh
+    · intro hh; exact Or.inr ⟨hh, m2⟩
+  have kn : ∀ (K : Nat) (p3 p5 p4 p6 : Prop), (K ∈ sideKeys u3 ↔ p3) → (K ∈ sideKeys u5 ↔ p5) →
+      (K ∈ sideKeys u4 ↔ p4) → (K ∈ sideKeys u6 ↔ p6) → ∀ g,
+      (((g = f3 ∧ K ∈ sideKeys u3) ∨ (g = f5 ∧ K ∈ sideKeys u5) ∨ (g = f4 ∧ K ∈ sideKeys u4) ∨
+        (g = f6 ∧ K ∈ sideKeys u6)) ↔ ((g = f3 ∧ p3) ∨ (g = f5 ∧ p5) ∨ (g = f4 ∧ p4) ∨ (g = f6 ∧ p6))) := by
+    intro K p3 p5 p4 p6 h3 h5 h4 h6 g
+    rw [h3, h5, h4, h6]
+  have nin : ∀ {K : Nat} {u : Tri} {x y w : Nat}, IsTri u x y w → K ≠ Edge.keyOf x y → K ≠ Edge.keyOf x w →
+      K ≠ Edge.keyOf y w → (K ∈ sideKeys u ↔ False) := by
+    intro K u x y w hT a1 a2 a3
+    rw [hT.sideKeys_iff]
+    constructor
+    · rintro (hh | hh | hh)
+      · exact a1 hh
+      · exact a2 hh
+      · exact a3 hh
+    · exact False.elim
+  intro z hz hk
+  refine S.corner (K := Edge.keyOf e.n2 cc) (Or.inl rfl)
+    (koA _ ((s1 _).2 (Or.inr (Or.inr rfl))) (by
+      rw [s2]; rintro (hh | hh | hh)
+      · exact kne (by omega) hh
+      · exact kne (by omega) hh
+      · exact kne (by omega) hh)) (fun g => ?_) hz hk
+  rw [kn _ False True False False
+    (nin S.U3 (kne (by omega)) (kne (by omega)) (kne (by omega)))
+    (iff_true_intro ((q5 _).2 (Or.inr (Or.inl (Edge.keyOf_comm _ _)))))
+    (nin S.U4 (kne (by omega)) (kne (by omega)) (kne (by omega)))
+    (nin S.U6 (kne (by omega)) (kne (by omega)) (kne (by omega)))]
+  simp
+
+theorem SplitRun.c3 (S : SplitRun c c' e chk chk' g1 g2 cc dd f3 f5 f4 f6 t1 t2 u3 u5 u4 u6 eea eeb eec eed)
+    (hI' : EdgeIdxComplete c') (hfresh : FreshNode c (newSlot c)) :
+    ∀ z, CopyOk c z → z.key = Edge.keyOf e.n1 dd → CopyOk c' (z.replaceFace g2 f4) := by
+  have hcd := S.cd hI'
+  obtain ⟨hab, hac, hbc, _, _, _⟩ := S.T1
+  obtain ⟨_, had, hbd, _, _, _⟩ := S.T2
+  obtain ⟨_, hce, hae, _, _, _⟩ := S.U3
+  obtain ⟨_, _, heb, _, _, _⟩ := S.U5
+  obtain ⟨_, hde, _, _, _, _⟩ := S.U4
+  -- the four keys
+  have s1 := S.T1.sideKeys_iff
+  have s2 := S.T2.sideKeys_iff
+  have q3 := S.U3.sideKeys_iff
+  have q5 := S.U5.sideKeys_iff
+  have q4 := S.U4.sideKeys_iff
+  have q6 := S.U6.sideKeys_iff
+  have side1 : ∀ g K, (g = g1 ∨ g = g2) → (SideK (slots c) g K ↔
+      ((g = g1 ∧ K ∈ sideKeys t1) ∨ (g = g2 ∧ K ∈ sideKeys t2))) := by
+    intro g K hg
+    constructor
+    · rintro ⟨u, hu, hq⟩
+      rcases hg with rfl | rfl
+      · rw [S.s1] at hu; cases hu; exact Or.inl ⟨rfl, hq⟩
+      · rw [S.s2] at hu; cases hu; exact Or.inr ⟨rfl, hq⟩
+    · rintro (⟨rfl, hq⟩ | ⟨rfl, hq⟩)
+      · exact ⟨t1, S.s1, hq⟩
+      · exact ⟨t2, S.s2, hq⟩
+  have g12 := S.g12
+  have kne : ∀ {p q x y : Nat}, ¬ ((p = x ∧ q = y) ∨ (p = y ∧ q = x)) → Edge.keyOf p q ≠ Edge.keyOf x y :=
+    fun hh he => hh (Edge.keyOf_eq_iff.1 he)
+  have koA : ∀ K, K ∈ sideKeys t1 → K ∉ sideKeys t2 → ∀ g, (g = g1 ∨ g = g2) → (SideK (slots c) g K ↔ g = g1) := by
+    intro K m1 m2 g hg
+    rw [side1 g K hg]
+    constructor
+    · rintro (⟨hh, _⟩ | ⟨_, hh⟩)
+      · exact hh
+      · exact absurd hh m2
+    · intro hh; exact Or.inl ⟨hh, m1⟩
+  have koB : ∀ K, K ∉ sideKeys t1 → K ∈ sideKeys t2 → ∀ g, (g = g1 ∨ g = g2) → (SideK (slots c) g K ↔ g = g2) := by
+    intro K m1 m2 g hg
+    rw [side1 g K hg]
+    constructor
+    · rintro (⟨_, hh⟩ | ⟨hh, _⟩)
+      · exact absurd hh m1
+      · exact hh
+    · intro hh; exact Or.inr ⟨hh, m2⟩
+  have kn : ∀ (K : Nat) (p3 p5 p4 p6 : Prop), (K ∈ sideKeys u3 ↔ p3) → (K ∈ sideKeys u5 ↔ p5) →
+      (K ∈ sideKeys u4 ↔ p4) → (K ∈ sideKeys u6 ↔ p6) → ∀ g,
+      (((g = f3 ∧ K ∈ sideKeys u3) ∨ (g = f5 ∧ K ∈ sideKeys u5) ∨ (g = f4 ∧ K ∈ sideKeys u4) ∨
+        (g = f6 ∧ K ∈ sideKeys u6)) ↔ ((g = f3 ∧ p3) ∨ (g = f5 ∧ p5) ∨ (g = f4 ∧ p4) ∨ (g = f6 ∧ p6))) := by
+    intro K p3 p5 p4 p6 h3 h5 h4 h6 g
+    rw [h3, h5, h4, h6]
+  have nin : ∀ {K : Nat} {u : Tri} {x y w : Nat}, IsTri u x y w → K ≠ Edge.keyOf x y → K ≠ Edge.keyOf x w →
+      K ≠ Edge.keyOf y w → (K ∈ sideKeys u ↔ False) := by
+    intro K u x y w hT a1 a2 a3
+    rw [hT.sideKeys_iff]
+    constructor
+    · rintro (hh | hh | hh)
+      · exact a1 hh
+      · exact a2 hh
+      · exact a3 hh
+    · exact False.elim
+  intro z hz hk
+  refine S.corner (K := Edge.keyOf e.n1 dd) (Or.inr rfl)
+    (koB _ (by
+      rw [s1]; rintro (hh | hh | hh)
+      · exact kne (by omega) hh
+      · exact kne (by omega) hh
+      · exact kne (by omega) hh) ((s2 _).2 (Or.inr (Or.inl rfl)))) (fun g => ?_) hz hk
+  rw [kn _ False False True False
+    (nin S.U3 (kne (by omega)) (kne (by omega)) (kne (by omega)))
+    (nin S.U5 (kne (by omega)) (kne (by omega)) (kne (by omega)))
+    (iff_true_intro ((q4 _).2 (Or.inl (Edge.keyOf_comm _ _))))
+    (nin S.U6 (kne (by omega)) (kne (by omega)) (kne (by omega)))]
+  simp
+
+theorem SplitRun.c4 (S : SplitRun c c' e chk chk' g1 g2 cc dd f3 f5 f4 f6 t1 t2 u3 u5 u4 u6 eea eeb eec eed)
+    (hI' : EdgeIdxComplete c') (hfresh : FreshNode c (newSlot c)) :
+    ∀ z, CopyOk c z → z.key = Edge.keyOf e.n2 dd → CopyOk c' (z.replaceFace g2 f6) := by
+  have hcd := S.cd hI'
+  obtain ⟨hab, hac, hbc, _, _, _⟩ := S.T1
+  obtain ⟨_, had, hbd, _, _, _⟩ := S.T2
+  obtain ⟨_, hce, hae, _, _, _⟩ := S.U3
+  obtain ⟨_, _, heb, _, _, _⟩ := S.U5
+  obtain ⟨_, hde, _, _, _, _⟩ := S.U4
+  -- the four keys
+  have s1 := S.T1.sideKeys_iff
+  have s2 := S.T2.sideKeys_iff
+  have q3 := S.U3.sideKeys_iff
+  have q5 := S.U5.sideKeys_iff
+  have q4 := S.U4.sideKeys_iff
+  have q6 := S.U6.sideKeys_iff
+  have side1 : ∀ g K, (g = g1 ∨ g = g2) → (SideK (slots c) g K ↔
+      ((g = g1 ∧ K ∈ sideKeys t1) ∨ (g = g2 ∧ K ∈ sideKeys t2))) := by
+    intro g K hg
+    constructor
+    · rintro ⟨u, hu, hq⟩
+      rcases hg with rfl | rfl
+      · rw [S.s1] at hu; cases hu; exact Or.inl ⟨rfl, hq⟩
+      · rw [S.s2] at hu; cases hu; exact Or.inr ⟨rfl, hq⟩
+    · rintro (⟨rfl, hq⟩ | ⟨rfl, hq⟩)
+      · exact ⟨t1, S.s1, hq⟩
+      · exact ⟨t2, S.s2, hq⟩
+  have g12 := S.g12
+  have kne : ∀ {p q x y : Nat}, ¬ ((p = x ∧ q = y) ∨ (p = y ∧ q = x)) → Edge.keyOf p q ≠ Edge.keyOf x y :=
+    fun hh he => hh (Edge.keyOf_eq_iff.1 he)
+  have koA : ∀ K, K ∈ sideKeys t1 → K ∉ sideKeys t2 → ∀ g, (g = g1 ∨ g = g2) → (SideK (slots c) g K ↔ g = g1) := by
+    intro K m1 m2 g hg
+    rw [side1 g K hg]
+    constructor
+    · rintro (⟨hh, _⟩ | ⟨_, hh⟩)
+      · exact hh
+      · exact absurd hh m2
+    · intro hh; exact Or.inl ⟨hh, m1⟩
+  have koB : ∀ K, K ∉ sideKeys t1 → K ∈ sideKeys t2 → ∀ g, (g = g1 ∨ g = g2) → (SideK (slots c) g K ↔ g = g2) := by
+    intro K m1 m2 g hg
+    rw [side1 g K hg]
+    constructor
+    · rintro (⟨_, hh⟩ | ⟨hh, _⟩)
+      · exact absurd hh m1
+      · exact hh
+    · intro hh; exact Or.inr ⟨hh, m2⟩
+  have kn : ∀ (K : Nat) (p3 p5 p4 p6 : Prop), (K ∈ sideKeys u3 ↔ p3) → (K ∈ sideKeys u5 ↔ p5) →
+      (K ∈ sideKeys u4 ↔ p4) → (K ∈ sideKeys u6 ↔ p6) → ∀ g,
+      (((g = f3 ∧ K ∈ sideKeys u3) ∨ (g = f5 ∧ K ∈ sideKeys u5) ∨ (g = f4 ∧ K ∈ sideKeys u4) ∨
+        (g = f6 ∧ K ∈ sideKeys u6)) ↔ ((g = f3 ∧ p3) ∨ (g = f5 ∧ p5) ∨ (g = f4 ∧ p4) ∨ (g = f6 ∧ p6))) := by
+    intro K p3 p5 p4 p6 h3 h5 h4 h6 g
+    rw [h3, h5, h4, h6]
+  have nin : ∀ {K : Nat} {u : Tri} {x y w : Nat}, IsTri u x y w → K ≠ Edge.keyOf x y → K ≠ Edge.keyOf x w →
+      K ≠ Edge.keyOf y w → (K ∈ sideKeys u ↔ False) := by
+    intro K u x y w hT a1 a2 a3
+    rw [hT.sideKeys_iff]
+    constructor
+    · rintro (hh | hh | hh)
+      · exact a1 hh
+      · exact a2 hh
+      · exact a3 hh
+    · exact False.elim
+  intro z hz hk
+  refine S.corner (K := Edge.keyOf e.n2 dd) (Or.inr rfl)
+    (koB _ (by
+      rw [s1]; rintro (hh | hh | hh)
+      · exact kne (by omega) hh
+      · exact kne (by omega) hh
+      · exact kne (by omega) hh) ((s2 _).2 (Or.inr (Or.inr rfl)))) (fun g => ?_) hz hk
+  rw [kn _ False False False True
+    (nin S.U3 (kne (by omega)) (kne (by omega)) (kne (by omega)))
+    (nin S.U5 (kne (by omega)) (kne (by omega)) (kne (by omega)))
+    (nin S.U4 (kne (by omega)) (kne (by omega)) (kne (by omega)))
+    (iff_true_intro ((q6 _).2 (Or.inr (Or.inl (Edge.keyOf_comm _ _)))))]
+  simp
+
+theorem SplitRun.c0 (S : SplitRun c c' e chk chk' g1 g2 cc dd f3 f5 f4 f6 t1 t2 u3 u5 u4 u6 eea eeb eec eed)
+    (hI' : EdgeIdxComplete c') (hfresh : FreshNode c (newSlot c)) :
+    ∀ z, CopyOk c z → z.key ≠ Edge.keyOf e.n1 e.n2 → z.key ≠ Edge.keyOf e.n1 cc →
+      z.key ≠ Edge.keyOf e.n2 cc → z.key ≠ Edge.keyOf e.n1 dd → z.key ≠ Edge.keyOf e.n2 dd → CopyOk c' z := by
+  have hcd := S.cd hI'
+  obtain ⟨hab, hac, hbc, _, _, _⟩ := S.T1
+  obtain ⟨_, had, hbd, _, _, _⟩ := S.T2
+  obtain ⟨_, hce, hae, _, _, _⟩ := S.U3
+  obtain ⟨_, _, heb, _, _, _⟩ := S.U5
+  obtain ⟨_, hde, _, _, _, _⟩ := S.U4
+  -- the four keys
+  have s1 := S.T1.sideKeys_iff
+  have s2 := S.T2.sideKeys_iff
+  have q3 := S.U3.sideKeys_iff
+  have q5 := S.U5.sideKeys_iff
+  have q4 := S.U4.sideKeys_iff
+  have q6 := S.U6.sideKeys_iff
+  have side1 : ∀ g K, (g = g1 ∨ g = g2) → (SideK (slots c) g K ↔
+      ((g = g1 ∧ K ∈ sideKeys t1) ∨ (g = g2 ∧ K ∈ sideKeys t2))) := by
+    intro g K hg
+    constructor
+    · rintro ⟨u, hu, hq⟩
+      rcases hg with rfl | rfl
+      · rw [S.s1] at hu; cases hu; exact Or.inl ⟨rfl, hq⟩
+      · rw [S.s2] at hu; cases hu; exact Or.inr ⟨rfl, hq⟩
+    · rintro (⟨rfl, hq⟩ | ⟨rfl, hq⟩)
+      · exact ⟨t1, S.s1, hq⟩
+      · exact ⟨t2, S.s2, hq⟩
+  have g12 := S.g12
+  have kne : ∀ {p q x y : Nat}, ¬ ((p = x ∧ q = y) ∨ (p = y ∧ q = x)) → Edge.keyOf p q ≠ Edge.keyOf x y :=
+    fun hh he => hh (Edge.keyOf_eq_iff.1 he)
+  have koA : ∀ K, K ∈ sideKeys t1 → K ∉ sideKeys t2 → ∀ g, (g = g1 ∨ g = g2) → (SideK (slots c) g K ↔ g = g1) := by
+    intro K m1 m2 g hg
+    rw [side1 g K hg]
+    constructor
+    · rintro (⟨hh, _⟩ | ⟨_, hh⟩)
+      · exact hh
+      · exact absurd hh m2
+    · intro hh; exact Or.inl ⟨hh, m1⟩
+  have koB : ∀ K, K ∉ sideKeys t1 → K ∈ sideKeys t2 → ∀ g, (g = g1 ∨ g = g2) → (SideK (slots c) g K ↔ g = g2) := by
+    intro K m1 m2 g hg
+    rw [side1 g K hg]
+    constructor
+    · rintro (⟨_, hh⟩ | ⟨hh, _⟩)
+      · exact absurd hh m1
+      · exact hh
+    · intro hh; exact Or.inr ⟨hh, m2⟩
+  have kn : ∀ (K : Nat) (p3 p5 p4 p6 : Prop), (K ∈ sideKeys u3 ↔ p3) → (K ∈ sideKeys u5 ↔ p5) →
+      (K ∈ sideKeys u4 ↔ p4) → (K ∈ sideKeys u6 ↔ p6) → ∀ g,
+      (((g = f3 ∧ K ∈ sideKeys u3) ∨ (g = f5 ∧ K ∈ sideKeys u5) ∨ (g = f4 ∧ K ∈ sideKeys u4) ∨
+        (g = f6 ∧ K ∈ sideKeys u6)) ↔ ((g = f3 ∧ p3) ∨ (g = f5 ∧ p5) ∨ (g = f4 ∧ p4) ∨ (g = f6 ∧ p6))) := by
+    intro K p3 p5 p4 p6 h3 h5 h4 h6 g
+    rw [h3, h5, h4, h6]
+  have nin : ∀ {K : Nat} {u : Tri} {x y w : Nat}, IsTri u x y w → K ≠ Edge.keyOf x y → K ≠ Edge.keyOf x w →
+      K ≠ Edge.keyOf y w → (K ∈ sideKeys u ↔ False) := by
+    intro K u x y w hT a1 a2 a3
+    rw [hT.sideKeys_iff]
+    constructor
+    · rintro (hh | hh | hh)
+      · exact a1 hh
+      · exact a2 hh
+      · exact a3 hh
+    · exact False.elim
+  intro z hz k0 k1 k2 k3 k4
+  have nf := hz.no_fresh hfresh
+  refine hz.congr (fun g => ?_)
+  rw [S.sideK g z.key, q3, q5, q4, q6]
+  have e1 := nf cc
+  have e2 := nf e.n1
+  have e3 := nf e.n2
+  have e4 := nf dd
+  rw [Edge.keyOf_comm] at e1 e2 e3 e4
+  constructor
+  · rintro (⟨hs, _, _⟩ | ⟨_, hh⟩ | ⟨_, hh⟩ | ⟨_, hh⟩ | ⟨_, hh⟩)
+    · exact hs
+    · rcases hh with hh | hh | hh
+      · exact absurd (hh.trans (Edge.keyOf_comm _ _)) k1
+      · exact absurd hh e1
+      · exact absurd hh e2
+    · rcases hh with hh | hh | hh
+      · exact absurd hh e1
+      · exact absurd (hh.trans (Edge.keyOf_comm _ _)) k2
+      · exact absurd (hh.trans (Edge.keyOf_comm _ _)) e3
+    · rcases hh with hh | hh | hh
+      · exact absurd (hh.trans (Edge.keyOf_comm _ _)) k3
+      · exact absurd hh e4
+      · exact absurd hh e2
+    · rcases hh with hh | hh | hh
+      · exact absurd hh e4
+      · exact absurd (hh.trans (Edge.keyOf_comm _ _)) k4
+      · exact absurd (hh.trans (Edge.keyOf_comm _ _)) e3
+  · intro hs
+    refine Or.inl ⟨hs, ?_, ?_⟩
+    · rintro rfl
+      obtain ⟨u, hu, hq⟩ := hs
+      rw [S.s1] at hu; cases hu
+      rcases (s1 _).1 hq with hh | hh | hh
+      · exact k0 hh
+      · exact k1 hh
+      · exact k2 hh
+    · rintro rfl
+      obtain ⟨u, hu, hq⟩ := hs
+      rw [S.s2] at hu; cases hu
+      rcases (s2 _).1 hq with hh | hh | hh
+      · exact k0 hh
+      · exact k3 hh
+      · exact k4 hh
+
+/-- **the check set after `split_edge`** -/
+theorem SplitRun.chkOk (S : SplitRun c c' e chk chk' g1 g2 cc dd f3 f5 f4 f6 t1 t2 u3 u5 u4 u6 eea eeb eec eed)
+    (hI' : EdgeIdxComplete c') (hfresh : FreshNode c (newSlot c)) (hchk : ChkOk c chk)
+    (hne : ∀ z ∈ chk, z.key ≠ Edge.keyOf e.n1 e.n2) : ChkOk c' chk' := by
+  have hcd := S.cd hI'
+  obtain ⟨hab, hac, hbc, _, _, _⟩ := S.T1
+  obtain ⟨_, had, hbd, _, _, _⟩ := S.T2
+  obtain ⟨_, hce, hae, _, _, _⟩ := S.U3
+  obtain ⟨_, _, heb, _, _, _⟩ := S.U5
+  obtain ⟨_, hde, _, _, _, _⟩ := S.U4
+  have kne : ∀ {p q x y : Nat}, ¬ ((p = x ∧ q = y) ∨ (p = y ∧ q = x)) → Edge.keyOf p q ≠ Edge.keyOf x y :=
+    fun hh he => hh (Edge.keyOf_eq_iff.1 he)
+  have C1 := S.c1 hI' hfresh
+  have C2 := S.c2 hI' hfresh
+  have C3 := S.c3 hI' hfresh
+  have C4 := S.c4 hI' hfresh
+  have C0 := S.c0 hI' hfresh
+  -- the edges read back from the index
+  have Cn : ∀ z y, getEdge c' (newSlot c) y = some z → CopyOk c' z ∧ z.key = Edge.keyOf (newSlot c) y := by
+    intro z y hg
+    rw [getEdge_eq] at hg
+    exact ⟨copyOk_of_find hI' hg, EdgeSet.find?_key hg⟩
+  -- the set
+  have hA : EdgeSet.Sorted (ins4 chk eea eeb eec eed) :=
+    EdgeSet.sorted_insert (EdgeSet.sorted_insert (EdgeSet.sorted_insert (EdgeSet.sorted_insert hchk.sorted _) _) _) _
+  have memA : ∀ z ∈ ins4 chk eea eeb eec eed, (z ∈ chk ∨ z = eea ∨ z = eeb ∨ z = eec ∨ z = eed) := by
+    intro z hz
+    unfold ins4 at hz
+    rcases EdgeSet.mem_insert hz with rfl | hz
+    · simp
+    rcases EdgeSet.mem_insert hz with rfl | hz
+    · simp
+    rcases EdgeSet.mem_insert hz with rfl | hz
+    · simp
+    rcases EdgeSet.mem_insert hz with rfl | hz
+    · simp
+    · exact Or.inl hz
+  have kφ : ∀ (K o n : Nat) (z : Edge), (if z.key = K then z.replaceFace o n else z).key = z.key := by
+    intro K o n z; split
+    · exact replaceFace_key _ _ _
+    · rfl
+  have hB := sorted_map_key hA _ (kφ (Edge.keyOf e.n1 cc) g1 f3)
+  have hC := sorted_map_key hB _ (kφ (Edge.keyOf e.n2 cc) g1 f5)
+  have hD := sorted_map_key hC _ (kφ (Edge.keyOf e.n1 dd) g2 f4)
+  have hE := sorted_map_key hD _ (kφ (Edge.keyOf e.n2 dd) g2 f6)
+  rw [S.chk_eq, updF_eq_map hA, updF_eq_map hB, updF_eq_map hC, updF_eq_map hD]
+  refine ⟨hE, fun z' hz' => ?_⟩
+  simp only [List.mem_map] at hz'
+  obtain ⟨z3, ⟨z2, ⟨z1, ⟨z, hz, r1⟩, r2⟩, r3⟩, r4⟩ := hz'
+  have k1 : z1.key = z.key := by rw [← r1]; exact kφ _ _ _ _
+  have k2 : z2.key = z.key := by rw [← r2, kφ]; exact k1
+  have k3 : z3.key = z.key := by rw [← r3, kφ]; exact k2
+  have K12 : Edge.keyOf e.n1 cc ≠ Edge.keyOf e.n2 cc := kne (by omega)
+  have K13 : Edge.keyOf e.n1 cc ≠ Edge.keyOf e.n1 dd := kne (by omega)
+  have K14 : Edge.keyOf e.n1 cc ≠ Edge.keyOf e.n2 dd := kne (by omega)
+  have K23 : Edge.keyOf e.n2 cc ≠ Edge.keyOf e.n1 dd := kne (by omega)
+  have K24 : Edge.keyOf e.n2 cc ≠ Edge.keyOf e.n2 dd := kne (by omega)
+  have K34 : Edge.keyOf e.n1 dd ≠ Edge.keyOf e.n2 dd := kne (by omega)
+  -- where does `z` come from?
+  have hzz : (CopyOk c z ∧ z.key ≠ Edge.keyOf e.n1 e.n2) ∨
+      (CopyOk c' z ∧ ∃ y, z.key = Edge.keyOf (newSlot c) y) := by
+    rcases memA z hz with hh | rfl | rfl | rfl | rfl
+    · exact Or.inl ⟨hchk.ok z hh, hne z hh⟩
+    · exact Or.inr ⟨(Cn _ _ S.gea).1, _, (Cn _ _ S.gea).2⟩
+    · exact Or.inr ⟨(Cn _ _ S.geb).1, _, (Cn _ _ S.geb).2⟩
+    · exact Or.inr ⟨(Cn _ _ S.gec).1, _, (Cn _ _ S.gec).2⟩
+    · exact Or.inr ⟨(Cn _ _ S.ged).1, _, (Cn _ _ S.ged).2⟩
+  rcases hzz with ⟨hc, hk0⟩ | ⟨hc, y, hky⟩
+  · by_cases h1 : z.key = Edge.keyOf e.n1 cc
+    · rw [if_pos h1] at r1
+      rw [if_neg (by rw [k1, h1]; exact K12)] at r2
+      rw [if_neg (by rw [k2, h1]; exact K13)] at r3
+      rw [if_neg (by rw [k3, h1]; exact K14)] at r4
+      subst r4; subst r3; subst r2; subst r1
+      exact C1 z hc h1
+    rw [if_neg h1] at r1
+    by_cases h2 : z.key = Edge.keyOf e.n2 cc
+    · rw [if_pos (by rw [k1, h2])] at r2
+      rw [if_neg (by rw [k2, h2]; exact K23)] at r3
+      rw [if_neg (by rw [k3, h2]; exact K24)] at r4
+      subst r4; subst r3; subst r2; subst r1
+      exact C2 z hc h2
+    rw [if_neg (by rw [k1]; exact h2)] at r2
+    by_cases h3 : z.key = Edge.keyOf e.n1 dd
+    · rw [if_pos (by rw [k2, h3])] at r3
+      rw [if_neg (by rw [k3, h3]; exact K34)] at r4
+      subst r4; subst r3; subst r2; subst r1
+      exact C3 z hc h3
+    rw [if_neg (by rw [k2]; exact h3)] at r3
+    by_cases h4 : z.key = Edge.keyOf e.n2 dd
+    · rw [if_pos (by rw [k3, h4])] at r4
+      subst r4; subst r3; subst r2; subst r1
+      exact C4 z hc h4
+    rw [if_neg (by rw [k3]; exact h4)] at r4
+    subst r4; subst r3; subst r2; subst r1
+    exact C0 z hc hk0 h1 h2 h3 h4
+  · have nk : ∀ x w, x ≠ newSlot c → w ≠ newSlot c → z.key ≠ Edge.keyOf x w := by
+      intro x w hx hw he
+      rw [hky, Edge.keyOf_eq_iff] at he
+      omega
+    rw [if_neg (nk _ _ hae hce)] at r1
+    rw [if_neg (by rw [k1]; exact nk _ _ (Ne.symm heb) hce)] at r2
+    rw [if_neg (by rw [k2]; exact nk _ _ hae hde)] at r3
+    rw [if_neg (by rw [k3]; exact nk _ _ (Ne.symm heb) hde)] at r4
+    subst r4; subst r3; subst r2; subst r1
+    exact hc
+
+end
+
+/-- the invariants carried through a pass of `refine_mesh` -/
+structure CellOk (c : Cell R) : Prop where
+  ffo : FaceFreeOk c
+  idx : EdgeIdxComplete c
+  nodes : NodesOk c
+  inv : Inv (abs c)
+  vmc : AllVMC (abs c)
+  /-- every used node slot is a corner of a live face (the converse is `NodesOk.live`) -/
+  covered : ∀ v, usedN c v = true → v ∈ vertsF (abs c)
+  /-- the cell has a node -/
+  hasUsed : ∃ v, usedN c v = true
+  /-- every unused face slot is queued -/
+  full : FreeFull c
+
+/-- **`split_edge` on a valid copy of an edge of a valid cell**: all invariants are kept, the check set stays valid, the
+    guard of the abstract split holds and the live triangles are the abstract split up to the order of the list. -/
+theorem splitEdge_pass {fn : Fn R} {k : SplitConsts R} {c c' : Cell R} {e : Edge} {chk chk' : CheckSet}
+    (h : splitEdge fn k c e chk = .ok (c', chk')) (hc : CellOk c) (hx : CopyOk c e) (hchk : ChkOk c chk)
+    (hne : ∀ z ∈ chk, z.key ≠ e.key) :
+    CellOk c' ∧ ChkOk c' chk' ∧ Fresh (abs c) (newSlot c) ∧
+      (∀ t1 t2, findDir (abs c) e.n1 e.n2 = some t1 → findDir (abs c) e.n2 e.n1 = some t2 →
+        opp t1 e.n1 e.n2 ≠ opp t2 e.n2 e.n1) ∧
+      (abs c').Perm (splitT (abs c) e.n1 e.n2 (newSlot c)) ∧
+      (c'.freeNodes, c'.nodes.size) = nodeOp (c.freeNodes, c.nodes.size) true e.n1 e.n2 := by
+  obtain ⟨hf, hI, hN, hInv, hV, hcov, hus, hfull⟩ := hc
+  obtain ⟨E, _, _, _, _, he, hab⟩ := hx.entry hI hInv
+  have hfresh := hN.fresh
+  obtain ⟨s1, s2, F1, F2⟩ := findDirs_of_edgeFaces hInv hab he
+  have hI' := splitEdge_idx h hf hI hab he hfresh
+  obtain ⟨hperm, hf'⟩ := splitEdge_refines h hf hInv hab he
+  obtain ⟨g1, g2, cc, dd, f3, f5, f4, f6, t1, t2, u3, u5, u4, u6, eea, eeb, eec, eed, S⟩ :=
+    splitEdge_run h hf hN hab he
+  have hg := S.guard hI' hx
+  have hk : e.key = Edge.keyOf e.n1 e.n2 := Edge.key_eq_keyOf hx.1
+  refine ⟨⟨hf', hI', S.nodesOk hN, splitEdge_inv h hf hInv hab he hfresh hg,
+    splitEdge_vmc h hf hInv hab he hfresh hg hV, ?_, ⟨newSlot c, by rw [S.used]; simp⟩, S.full hfull⟩, ?_, hfresh, hg,
+    hperm, by unfold nodeOp; simp only [if_true]; rw [S.freeNodes, S.size_eq]⟩
+  · intro v hv
+    rw [vertsF_perm hperm, split_verts hInv.nondeg F1 F2, Finset.mem_insert]
+    rw [S.used] at hv
+    simp only [Bool.or_eq_true, decide_eq_true_eq] at hv
+    rcases hv with hv | hv
+    · exact Or.inl hv
+    · exact Or.inr (hcov v hv)
+  · exact S.chkOk hI' (freshNode_of_fresh hfresh) hchk (fun z hz => by rw [← hk]; exact hne z hz)
+
+end
+
+end Simu.Remesh
